@@ -13,7 +13,11 @@ import (
 type ExpandIn struct {
 	Cfg     json.RawMessage `json:"cfg"`
 	History []int           `json:"h"`
+	Only    *int            `json:"only,omitempty"` // replay: expand just this op (-1 = the initial state)
 }
+
+// Want reports whether op k is to be expanded for this item.
+func (in *ExpandIn) Want(k int) bool { return in.Only == nil || *in.Only == k }
 
 // Child is the result of applying one operation.
 type Child struct {
@@ -47,6 +51,8 @@ func BFS(rc *RunCtx, job string, cfg any, depth int, dedup bool, label string) {
 				}
 				rc.Add("probes", c.Probes)
 				for _, v := range c.Viols {
+					op := c.Op
+					v.Replay = ItemReplay(job, ExpandIn{Cfg: cfgRaw, History: in.History, Only: &op})
 					rc.Report(v)
 				}
 				for _, o := range c.Outcomes {
